@@ -227,7 +227,7 @@ pub fn spec() -> PropSpec {
     PropSpec {
         id: "C11",
         level: "exploration",
-        rule: "enumeration: own packet 1 for 2 roles x every digest offset 0..727 (the hook steers the four pointer bytes so their sum selects the offset; both representatives t and t+728 where possible) and packet 2 in answer to a peer packet 1 for 2 roles x 2 schemes x 728 offsets, plus digest-less packet 1 (random, all-zero, original layout); remaining bytes from a PRNG seeded by VERIF_SEED (quick: 1 fill per obligation, thorough: 25). Every case is non-trivial (a distinct offset/scheme/role obligation); distinct = distinct (role, scheme, offset, fill)",
+        rule: "(the peer's packet 1 is followed in three cases of five by the first 1 / 700 / 1535 bytes of its packet 2 in the same read) enumeration: own packet 1 for 2 roles x every digest offset 0..727 (the hook steers the four pointer bytes so their sum selects the offset; both representatives t and t+728 where possible) and packet 2 in answer to a peer packet 1 for 2 roles x 2 schemes x 728 offsets, plus digest-less packet 1 (random, all-zero, original layout); remaining bytes from a PRNG seeded by VERIF_SEED (quick: 1 fill per obligation, thorough: 25). Every case is non-trivial (a distinct offset/scheme/role obligation); distinct = distinct (role, scheme, offset, fill)",
         assumptions: vec![
             "RefHmac (own SHA-256/HMAC, self-tested against FIPS 180-4 / RFC 4231 vectors on every case) and the FP9 rules from the clean-room description: keys 'Genuine Adobe Flash Player 001' / 'Genuine Adobe Flash Media Server 001' (+32-byte suffix for packet 2), offset = sum of 4 pointer bytes mod 728 + 12 / 776",
             "hook verif-hooks::set_random_fill replaces the handshake's random source; the digest computation is the library's own",
